@@ -120,6 +120,65 @@ Proof.
 Qed.
 
 (* ------------------------------------------------------------------------------------------ *)
+(* one thread among threads that only read: its run is its run alone *)
+
+Definition alone_thread (t0 : tower) (p : prog out) (tc : tower) (th : cthread) : Prop :=
+  match ct_st th with
+  | Running q => exec q tc = exec p t0
+  | Ended r => ended_by_abort r
+  end.
+Definition reader_thread (th : cthread) : Prop := match ct_st th with Running q => readonly q | Ended _ => True end.
+
+Definition wr_inv (t0 : tower) (j : nat) (p : prog out) (c : conf) : Prop :=
+  (exists thj, nth_error (cf_threads c) j = Some thj /\ alone_thread t0 p (cf_tower c) thj) /\
+  forall i th, i <> j -> nth_error (cf_threads c) i = Some th -> reader_thread th.
+
+Lemma wr_step t0 j p c i c' : wr_inv t0 j p c -> step_thread c i = Some c' -> wr_inv t0 j p c'.
+Proof.
+  intros [[thj [Hj Hal]] Hro] Hs. destruct (step_thread_cases c i c' Hs) as [th [q [Hn [Hst Hc]]]].
+  destruct (Nat.eq_dec i j) as [->|Hij].
+  - assert (th = thj) by congruence. subst thj. unfold alone_thread in Hal. rewrite Hst in Hal.
+    assert (Hoth : forall t' po th', (forall i0 th0, i0 <> j -> nth_error (cf_threads (mk_conf t' po (set_nth (cf_threads c) j th'))) i0 = Some th0 -> reader_thread th0)).
+    { intros t' po th' i0 th0 Hi0 H0. cbn [cf_threads] in H0. rewrite nth_error_set_nth_neq in H0 by congruence. eapply Hro; eauto. }
+    destruct Hc as [[l [k [-> [_ [_ ->]]]]]|[[l [k [-> [_ [_ ->]]]]]|[[l [k [-> ->]]]|[[B [f [k [b [t' [-> [Hf ->]]]]]]]|[B [f [k [s [t' [-> [Hf ->]]]]]]]]]]];
+      unfold die; (split; [|apply Hoth]); eexists; (split; [cbn [cf_threads]; eapply nth_error_set_nth_eq; eauto|]);
+      unfold alone_thread; cbn [ct_st cf_tower exec ended_by_abort] in *; try exact I; try exact Hal.
+    rewrite Hf in Hal. exact Hal.
+  - pose proof (Hro i th Hij Hn) as Hr. unfold reader_thread in Hr. rewrite Hst in Hr.
+    assert (Hgen : forall t' po th', t' = cf_tower c -> reader_thread th' -> wr_inv t0 j p (mk_conf t' po (set_nth (cf_threads c) i th'))).
+    { intros t' po th' -> Hth'. split.
+      - exists thj. split; [cbn [cf_threads]; rewrite nth_error_set_nth_neq by exact Hij; exact Hj|exact Hal].
+      - intros i0 th0 Hi0 H0. cbn [cf_threads] in H0. apply nth_error_set_nth in H0. destruct H0 as [[<- ->]|[_ H0]]; [exact Hth'|eapply Hro; eauto]. }
+    destruct Hc as [[l [k [-> [_ [_ ->]]]]]|[[l [k [-> [_ [_ ->]]]]]|[[l [k [-> ->]]]|[[B [f [k [b [t' [-> [Hf ->]]]]]]]|[B [f [k [s [t' [-> [Hf ->]]]]]]]]]]];
+      unfold die; cbn [readonly] in Hr; apply Hgen; unfold reader_thread; cbn [ct_st]; try reflexivity; try exact I; try exact Hr.
+    + destruct Hr as [H1 _]. specialize (H1 (cf_tower c)). rewrite Hf in H1. exact H1.
+    + apply Hr.
+    + destruct Hr as [H1 _]. specialize (H1 (cf_tower c)). rewrite Hf in H1. exact H1.
+Qed.
+
+(* ANY number of read-only threads (get_appointment, get_subscription_info) next to one arbitrary thread j, any
+   schedule: if thread j returns, its reply and the final state are those of its program run alone from the initial
+   state - which is what BOTH sequential orders give for thread j and the state, since readers change nothing.
+   (What the readers themselves return is the subject of reader_sees_* below.) *)
+Theorem writer_among_readers_runs_alone t ps sched j p o :
+  nth_error ps j = Some p ->
+  (forall i q, i <> j -> nth_error ps i = Some q -> readonly q) ->
+  nth_error (snd (run_sched t ps sched)) j = Some (Some (TOut o)) -> (forall s, o <> OAbort s) ->
+  exec p t = Ok o (fst (run_sched t ps sched)).
+Proof.
+  intros Hp Hro. unfold run_sched. cbn [fst snd].
+  assert (H : wr_inv t j p (run_config (init_config t ps) sched)).
+  { apply run_config_inv; [intros; eapply wr_step; eauto|]. split.
+    - exists (spawn p). split; [cbn [cf_threads init_config]; rewrite nth_error_map, Hp; reflexivity|reflexivity].
+    - intros i th Hi Hn. cbn [cf_threads init_config] in Hn. rewrite nth_error_map in Hn.
+      destruct (nth_error ps i) as [q|] eqn:Eq; [|discriminate]. inversion Hn; subst th. exact (Hro i q Hi Eq). }
+  destruct H as [[thj [Hj Hal]] _]. rewrite nth_error_map, Hj. cbn [option_map]. intros Hr Hna. inversion Hr as [Hres]. clear Hr.
+  unfold thread_result, alone_thread in *. destruct (ct_st thj) as [q|r].
+  - destruct q; try discriminate. inversion Hres; subst. cbn [exec] in Hal. symmetry. exact Hal.
+  - inversion Hres; subst. exfalso. cbn in Hal. destruct o; try exact Hal. eapply Hna. reflexivity.
+Qed.
+
+(* ------------------------------------------------------------------------------------------ *)
 (* a thread panics only at the sites of its own program, whatever the other threads do *)
 
 Fixpoint absites {A} (S : site -> Prop) (K : A -> Prop) (p : prog A) : Prop :=
@@ -313,6 +372,89 @@ Lemma add_refused_when_purged_in_between :
   let c := run_config (init_config w_purge [add_p [] (Some 1) 8 (mk_blob 8 (Some 108) 77) 20 2; w_connect_purge]) w_add_purged in
   map thread_result (cf_threads c) = [Some (TOut (OAddRes AddAuthOrSlots)); Some (TOut OBlockRes)] /\
   cf_poisoned c = [] /\ db_apps (cf_tower c) = [] /\ db_users (cf_tower c) = [].
+Proof. vm_compute. repeat split; reflexivity. Qed.
+
+(* 5. get_appointment || add_appointment whose dispute is already in the locator cache: the request stores the row
+      (27 events), the reader finds the appointment, the request hands the breach to the responder (tracker).  Run one
+      after the other the reader sees nothing (before) or the tracker (after): the reply "appointment" is the reply
+      of neither order - a reader next to a writer with several critical sections is NOT linearizable in its own
+      reply (the writer's reply and the final state are: writer_among_readers_runs_alone) *)
+Definition w_trig : tower := fst (run true w_reg [(OConnect 2001 [7], [])]).
+Definition w_get_midway : list nat := repeat 0%nat 27 ++ repeat 1%nat 60 ++ repeat 0%nat 300.
+
+Lemma reader_sees_appointment_before_its_tracker :
+  let ps := [w_add; get_p (Some 1) 7] in
+  snd (run_sched w_trig ps w_get_midway) =
+    [Some (TOut (OAddRes (AddOk 121 1 9 520))); Some (TOut (OGetRes (GetApp 7 w_blob 20)))] /\
+  snd (run_sched w_trig ps (in_order [0; 1]%nat)) =
+    [Some (TOut (OAddRes (AddOk 121 1 9 520))); Some (TOut (OGetRes (GetTrk 7 107)))] /\
+  snd (run_sched w_trig ps (in_order [1; 0]%nat)) =
+    [Some (TOut (OAddRes (AddOk 121 1 9 520))); Some (TOut (OGetRes GetNotFound))] /\
+  fst (run_sched w_trig ps w_get_midway) = fst (run_sched w_trig ps (in_order [0; 1]%nat)).
+Proof. vm_compute. repeat split; reflexivity. Qed.
+
+(* 6. a reader || the block that purges its user: authenticated and not expired (8 resp. 11 events), purged, then the
+      last critical section of the reader (the tables) finds nothing: "not found" resp. "subscription, no locators" -
+      before the block the reader is told the appointment / its locator, after it "authentication failure" *)
+Definition w_reader_purged (n : nat) : list nat := repeat 0%nat n ++ repeat 1%nat 200 ++ repeat 0%nat 60.
+
+Lemma readers_straddle_the_purge :
+  let pg := [get_p (Some 1) 7; w_connect_purge] in
+  let ps := [getsub_p (Some 1); w_connect_purge] in
+  snd (run_sched w_purge pg (w_reader_purged 8)) = [Some (TOut (OGetRes GetNotFound)); Some (TOut OBlockRes)] /\
+  snd (run_sched w_purge pg (in_order [0; 1]%nat)) = [Some (TOut (OGetRes (GetApp 7 w_blob 20))); Some (TOut OBlockRes)] /\
+  snd (run_sched w_purge pg (in_order [1; 0]%nat)) = [Some (TOut (OGetRes GetAuth)); Some (TOut OBlockRes)] /\
+  snd (run_sched w_purge ps (w_reader_purged 11)) = [Some (TOut (OSubRes (SubOk 9 122 []))); Some (TOut OBlockRes)] /\
+  snd (run_sched w_purge ps (in_order [0; 1]%nat)) = [Some (TOut (OSubRes (SubOk 9 122 [7]))); Some (TOut OBlockRes)] /\
+  snd (run_sched w_purge ps (in_order [1; 0]%nat)) = [Some (TOut (OSubRes SubAuth)); Some (TOut OBlockRes)].
+Proof. vm_compute. repeat split; reflexivity. Qed.
+
+(* 7. get_subscription_info || add_appointment of the same user: the request is charged (21 events), the reader reads the
+      user's info (9 slots) and the locators (none yet), the request stores the row: "9 slots, no appointment" - before
+      the request the reader is told 10 slots and no locator, after it 9 slots and locator 7 *)
+Definition w_getsub_midway : list nat := repeat 0%nat 21 ++ repeat 1%nat 60 ++ repeat 0%nat 300.
+
+Lemma reader_sees_the_charge_before_the_appointment :
+  let ps := [w_add; getsub_p (Some 1)] in
+  snd (run_sched w_reg ps w_getsub_midway) =
+    [Some (TOut (OAddRes (AddOk 120 1 9 520))); Some (TOut (OSubRes (SubOk 9 520 [])))] /\
+  snd (run_sched w_reg ps (in_order [0; 1]%nat)) =
+    [Some (TOut (OAddRes (AddOk 120 1 9 520))); Some (TOut (OSubRes (SubOk 9 520 [7])))] /\
+  snd (run_sched w_reg ps (in_order [1; 0]%nat)) =
+    [Some (TOut (OAddRes (AddOk 120 1 9 520))); Some (TOut (OSubRes (SubOk 10 520 [])))].
+Proof. vm_compute. repeat split; reflexivity. Qed.
+
+(* 8. get_appointment || the block at whose height the subscription expires and that carries the appointment's dispute
+      (no purge: 10 blocks of grace): the reader passes the expiry test (8 events: the gatekeeper is still at 121), the
+      block is processed (gatekeeper at 122 = expiry, tracker inserted), the reader finds the tracker.  Before the block
+      it is told the appointment, after it "subscription expired" *)
+Definition w_exp : tower :=
+  fst (run true (w_boot (mk_config 10 2 10)) [(ORegister 1, []); (OAdd (Some 1) 7 w_blob 20 1, []); (OConnect 2010 [], [])]).
+Definition w_connect_expiry_dispute : prog out := prog_of_op true [] w_exp (OConnect 2011 [7]).
+Definition w_get_across_block : list nat := repeat 0%nat 8 ++ repeat 1%nat 400 ++ repeat 0%nat 60.
+
+Lemma reader_straddles_the_expiring_block :
+  let ps := [get_p (Some 1) 7; w_connect_expiry_dispute] in
+  snd (run_sched w_exp ps w_get_across_block) = [Some (TOut (OGetRes (GetTrk 7 107))); Some (TOut OBlockRes)] /\
+  snd (run_sched w_exp ps (in_order [0; 1]%nat)) = [Some (TOut (OGetRes (GetApp 7 w_blob 20))); Some (TOut OBlockRes)] /\
+  snd (run_sched w_exp ps (in_order [1; 0]%nat)) = [Some (TOut (OGetRes (GetExpired 122))); Some (TOut OBlockRes)].
+Proof. vm_compute. repeat split; reflexivity. Qed.
+
+(* 9. register || add_appointment of the same user: the request passes the expiry test (8 events: expiry 520), the renewal
+      is served (balance 20, expiry 920), the request is charged (balance 19): its receipt says "19 slots, expiry 520" -
+      after the renewal it would say 19 / 920, before it 9 / 520.  The final state is that of register ; add *)
+Definition w_add_across_renewal : list nat := repeat 1%nat 8 ++ repeat 0%nat 60 ++ repeat 1%nat 300.
+
+Lemma receipt_mixes_the_renewal :
+  let ps := [register_p 1; w_add] in
+  snd (run_sched w_reg ps w_add_across_renewal) =
+    [Some (TOut (ORegisterRes (RegOk 20 120 920))); Some (TOut (OAddRes (AddOk 120 1 19 520)))] /\
+  snd (run_sched w_reg ps (in_order [0; 1]%nat)) =
+    [Some (TOut (ORegisterRes (RegOk 20 120 920))); Some (TOut (OAddRes (AddOk 120 1 19 920)))] /\
+  snd (run_sched w_reg ps (in_order [1; 0]%nat)) =
+    [Some (TOut (ORegisterRes (RegOk 19 120 920))); Some (TOut (OAddRes (AddOk 120 1 9 520)))] /\
+  gk_users (fst (run_sched w_reg ps w_add_across_renewal)) = gk_users (fst (run_sched w_reg ps (in_order [0; 1]%nat))) /\
+  db_apps (fst (run_sched w_reg ps w_add_across_renewal)) = db_apps (fst (run_sched w_reg ps (in_order [0; 1]%nat))).
 Proof. vm_compute. repeat split; reflexivity. Qed.
 
 (* ------------------------------------------------------------------------------------------ *)
